@@ -317,6 +317,46 @@ static int do_ann(hwloc_topology_t t, char *line)
     }
     return 0;
   }
+  if (!strcmp(op, "pci") && sscanf(line, "%u %31s %llu", &k, s1, &v) == 3) {
+    /* pci <k> <field> <value>: set one attribute of the k-th PCI device (modulo their number) */
+    int n = hwloc_get_nbobjs_by_type(t, HWLOC_OBJ_PCI_DEVICE); hwloc_obj_t o;
+    if (n <= 0) return -1;
+    o = hwloc_get_obj_by_type(t, HWLOC_OBJ_PCI_DEVICE, k % (unsigned)n);
+    if (!strcmp(s1, "class")) o->attr->pcidev.class_id = (unsigned short)v;
+    else if (!strcmp(s1, "vendor")) o->attr->pcidev.vendor_id = (unsigned short)v;
+    else if (!strcmp(s1, "device")) o->attr->pcidev.device_id = (unsigned short)v;
+    else if (!strcmp(s1, "subvendor")) o->attr->pcidev.subvendor_id = (unsigned short)v;
+    else if (!strcmp(s1, "subdevice")) o->attr->pcidev.subdevice_id = (unsigned short)v;
+    else if (!strcmp(s1, "revision")) o->attr->pcidev.revision = (unsigned char)v;
+    else if (!strcmp(s1, "prog_if")) o->attr->pcidev.prog_if = (unsigned char)v;
+    else if (!strcmp(s1, "linkspeed64")) o->attr->pcidev.linkspeed = (float)v / 64.0f;   /* multiples of 1/64: exact in float and in %f */
+    else if (!strcmp(s1, "domain")) {
+      /* move the whole hostbridge subtree containing the device into another PCI domain */
+      hwloc_obj_t hb = o, c; hwloc_obj_t *arr = NULL; unsigned na = 0, cap = 0, i;
+      while (hb->parent && !(hb->type == HWLOC_OBJ_BRIDGE && hb->attr->bridge.upstream_type == HWLOC_OBJ_BRIDGE_HOST)) hb = hb->parent;
+      if (hb->type != HWLOC_OBJ_BRIDGE) return -1;
+      enum_objs(hb, &arr, &na, &cap);
+      for (i = 0; i < na; i++) {
+        c = arr[i];
+        if (c->type == HWLOC_OBJ_PCI_DEVICE) c->attr->pcidev.domain = (unsigned)v;
+        else if (c->type == HWLOC_OBJ_BRIDGE) {
+          if (c->attr->bridge.upstream_type == HWLOC_OBJ_BRIDGE_PCI) c->attr->bridge.upstream.pci.domain = (unsigned)v;
+          if (c->attr->bridge.downstream_type == HWLOC_OBJ_BRIDGE_PCI) c->attr->bridge.downstream.pci.domain = (unsigned)v;
+        }
+      }
+      free(arr);
+    }
+    else return -1;
+    return 0;
+  }
+  if (!strcmp(op, "osindex") && sscanf(line, "%u %llu", &k, &v) == 2) {
+    /* osindex <k> <value>: os_index of an object whose index is not tied to a set (not PU / NUMANode) */
+    hwloc_obj_t *arr = NULL; unsigned n = 0, cap = 0, i; int done = -1;
+    enum_objs(hwloc_get_root_obj(t), &arr, &n, &cap);
+    for (i = 0; i < n; i++) { hwloc_obj_t o = arr[(k + i) % n];
+      if (o->type != HWLOC_OBJ_PU && o->type != HWLOC_OBJ_NUMANODE && o->type != HWLOC_OBJ_MACHINE) { o->os_index = (unsigned)v; done = 0; break; } }
+    free(arr); return done;
+  }
   if (!strcmp(op, "cache") && sscanf(line, "%u %llu %u %d", &k, &v, &k2, &d) == 4) {
     /* cache <k> <size> <linesize> <associativity>: first cache object at or after DFS position k */
     hwloc_obj_t *arr = NULL; unsigned n = 0, cap = 0, i; int done = -1;
